@@ -8,13 +8,15 @@ claim("C11", "exploration",
 claim("C05", "exploration",
       "Every reservation layout (<=2, thorough <=3 disjoint ranges, global or per-chip) x alignment x vertex tuple on one chip, and "
       "two-chip/two-resource/exception-chip combinations with all placements and dict orders, run through the real allocator and "
-      "judged clause by clause (size, range, alignment, reservation and vertex disjointness, only documented error, completeness).",
-      "Scope bounded to capacity 8 and <=3 vertices; reservations satisfy the documented precondition (disjoint, inside the chip).",
+      "judged clause by clause (size, range, alignment, reservation and vertex disjointness, only documented error, completeness); "
+      "three chips with more / less than the machine-wide amount and reservations anywhere in the larger range; two-call histories.",
+      "Scope bounded to capacity 8 and <=3 vertices; reservations are pairwise disjoint (a global one may lie beyond the end of a smaller chip).",
       "DESIGN.md section 4, C05")
 claim("C04", "exploration",
       "Every orthogonal full-mask table over 3 key bits (4 entry kinds per key, both orders), key subsets over 4 bits, every "
       "generality-ordered list of <=3 (thorough <=4) ternary-pattern entries, the empty table, two-call histories, multi-chip tables "
-      "with differing sources and 604800 merge-group-with-blockers tables are pushed "
+      "with differing sources, 604800 merge-group-with-blockers tables, every-target families, 16 source/route shapes (core sources) "
+      "and partial merges under every target are pushed "
       "through each real minimiser and the method chain with targets None/0/1/len-1/len/len+1; every key of the key space is looked "
       "up before and after (first match + default routing), results are re-minimised, lengths and failure reports checked.",
       "First-match lookup in /verif is the reference; key space limited to 3-4 bits and tables to <=8 entries.",
